@@ -36,7 +36,8 @@ def time_case(draw):
     if draw(st.integers(0, 9)) < 3:
         d0, d1 = d1, d0
     m = draw(st.one_of(st.none(), st.none(), st.integers(2, 50), st.sampled_from([2, 5, 10, 20])))
-    return dict(kind="time", d0=d0, d1=d1, m=m)
+    p0, p1, _ = draw(tg.time_domain(10, int(200 * 365 * 86400e3)))
+    return dict(kind="time", d0=d0, d1=d1, m=m, p0=p0, p1=p1)
 
 
 def strategy(tier):
@@ -92,6 +93,19 @@ def check_time(spec, ctx):
 
     tk, nd = guarded(lambda: lib_call(run), ctx)
     ctx.event("kind:time")
+    if spec.get("p0"):
+        # a scale that was used with another domain before (ticks and nice), then given this one: same nice domain
+        def reuse():
+            s = TimeScale().domain([tg.parse(spec["p0"]), tg.parse(spec["p1"])])
+            s.ticks() if m is None else s.ticks(m)
+            s.nice() if m is None else s.nice(m)
+            s.domain(list(dom))
+            s.nice() if m is None else s.nice(m)
+            return s.domain()
+
+        nd2 = guarded(lambda: lib_call(reuse), ctx)
+        if nd2 != nd:
+            raise Violation("time-nice-depends-on-earlier-domain", "[%s, %s] nice(%r) -> %r on a fresh scale, %r on a scale that had the domain [%s, %s] before" % (d0, d1, m, nd, nd2, spec["p0"], spec["p1"]))
     lo, hi, nlo, nhi = min(dom), max(dom), min(nd), max(nd)
     if d1 < d0:
         ctx.event("time:reversed")
